@@ -374,6 +374,17 @@ func (x *Exec) iteV(c *Term, a, bb Value) Value {
 			if q.Obj == nil {
 				return &SliceV{Obj: p.Obj, Path: p.Path, Off: b.Ite(c, p.Off, q.Off), Len: b.Ite(c, p.Len, q.Len), Cap: b.Ite(c, p.Cap, q.Cap)}
 			}
+			// different backing objects, both at offset 0 with plain array values:
+			// a fresh object whose content is chosen by the condition
+			if x.curHeapForStr != nil && len(p.Path) == 0 && len(q.Path) == 0 && isC(p.Off) && p.Off.Val == 0 && isC(q.Off) && q.Off.Val == 0 {
+				pa, ok1 := x.curHeapA[p.Obj].(*Term)
+				qa, ok2 := x.curHeapB[q.Obj].(*Term)
+				if ok1 && ok2 && pa.S == qa.S {
+					o := x.newObj("merged-slice", nil)
+					x.pendingObjs[o] = b.Ite(c, pa, qa)
+					return &SliceV{Obj: o, Off: p.Off, Len: b.Ite(c, p.Len, q.Len), Cap: b.Ite(c, p.Cap, q.Cap)}
+				}
+			}
 			if debugIf {
 				panic("merge of slices over different objects")
 			}
@@ -391,7 +402,14 @@ func (x *Exec) iteV(c *Term, a, bb Value) Value {
 		if p.Known && q.Known && p.S == q.S {
 			return p
 		}
-		unsupported("merge of different strings")
+		if x.strHeap == nil {
+			unsupported("merge of different strings")
+		}
+		// a fresh string whose bytes and length are chosen by the condition
+		pa, qa := x.strArr(p), x.strArr(q)
+		o := x.newObj("merged-string", nil)
+		x.strHeap[o] = b.Ite(c, pa, qa)
+		return &StrV{Obj: o, Len: b.Ite(c, p.Len, q.Len)}
 	case *FuncV:
 		q := bb.(*FuncV)
 		if p.Fn == q.Fn {
@@ -538,4 +556,26 @@ func (x *Exec) ifaceId(p *IfaceV) *Term {
 		x.opaqueIds[p.Opaque] = id
 	}
 	return x.b.Const(32, id)
+}
+
+// strArr: the bytes of a string as an array term.
+func (x *Exec) strArr(s *StrV) *Term {
+	b := x.b
+	if s.Known {
+		a := b.ConstArr(Arr(BV(64), BV(8)), b.Const(8, 0))
+		for k := 0; k < len(s.S); k++ {
+			a = b.Store(a, b.Const(64, uint64(k)), b.Const(8, uint64(s.S[k])))
+		}
+		return a
+	}
+	if t, ok := x.strHeap[s.Obj]; ok {
+		return t
+	}
+	if x.curHeapForStr != nil {
+		if t, ok := x.curHeapForStr[s.Obj].(*Term); ok {
+			return t
+		}
+	}
+	unsupported("bytes of an unknown string object")
+	return nil
 }
